@@ -7,6 +7,7 @@ import (
 	"os"
 	"time"
 
+	"verif/harness/internal/cancel"
 	"verif/harness/internal/core"
 	"verif/harness/internal/graph"
 	"verif/harness/internal/sched"
@@ -15,8 +16,28 @@ import (
 type engine func(env *core.Env, rep *core.Report) *core.Result
 
 var engines = map[string]engine{
-	"C01": sched.Check, "C02": sched.Check, "C03": sched.Check, "C04": sched.Check,
+	"C01": sched.Check, "C02": sched.Check, "C03": c03, "C04": sched.Check,
 	"C05": graph.Check,
+	"C12": cancel.Check,
+}
+
+// c03: the scheduler engine plus the cancelled runs with the real TaskRunner (cancel engine).
+func c03(env *core.Env, rep *core.Report) *core.Result {
+	res := sched.Check(env, rep)
+	res2 := cancel.Check(env, rep)
+	res.Coverage["cancelled_runs_with_real_taskrunner"] = map[string]interface{}{
+		"scenarios_executed": res2.Coverage["scenarios_executed"], "scenarios_in_model": res2.Coverage["scenarios_in_model"],
+		"hook_traces_accepted": res2.Coverage["hook_traces_accepted"], "model_runs": res2.Coverage["model_runs"],
+	}
+	gen, dist, runs, cmds := core.TLCTotals()
+	res.Coverage["states"], res.Coverage["transitions"], res.Coverage["tlc_runs"], res.Coverage["checker_cmds"] = dist, gen, runs, cmds
+	if n, ok := res2.Coverage["scenarios_executed"].(int); ok {
+		if m, ok := res.Coverage["traces_validated_against_impl"].(int); ok {
+			res.Coverage["traces_validated_against_impl"] = m + n
+		}
+	}
+	res.Assumptions = append(res.Assumptions, res2.Assumptions...)
+	return res
 }
 
 func main() {
@@ -57,6 +78,9 @@ func main() {
 func worker(args []string) {
 	if len(args) == 0 {
 		os.Exit(2)
+	}
+	if args[0] == "cancel" && len(args) > 1 {
+		os.Exit(cancel.Worker(args[1]))
 	}
 	fmt.Fprintf(os.Stderr, "unknown worker %q\n", args[0])
 	os.Exit(2)
